@@ -245,6 +245,8 @@ func c07Units(tier string) []*Unit {
 		// the cycle is entered at two points at once: each of the two executions ends up waiting for
 		// the other one
 		"cycle-2-deps-once-two-entries": {Tasks: []*T{{Name: "root", Deps: []Ref{{Task: "a", VP: "@"}, {Task: "b", VP: "@"}}, Cmds: []C{P()}}, {Name: "a", Run: "once", Deps: []Ref{{Task: "b", VP: "@"}}}, {Name: "b", Run: "once", Deps: []Ref{{Task: "a", VP: "@"}}}}},
+		"cycle-3-deps-once-two-entries": {Tasks: []*T{{Name: "root", Deps: []Ref{{Task: "a", VP: "@"}, {Task: "h", VP: "@"}}, Cmds: []C{P()}},
+			{Name: "a", Run: "once", Deps: []Ref{{Task: "x", VP: "@"}}}, {Name: "x", Run: "once", Deps: []Ref{{Task: "h", VP: "@"}}}, {Name: "h", Run: "once", Deps: []Ref{{Task: "a", VP: "@"}}}}},
 		// the cycle closes through a deferred task call (errors of deferred commands are ignored, so
 		// only termination is required of these)
 		"cycle-deferred-self-call-once": {Tasks: []*T{{Name: "root", Run: "once", Cmds: []C{{Defer: true, Call: &Ref{Task: "root", VP: "@"}}, P()}}}},
@@ -343,6 +345,9 @@ func c07Units(tier string) []*Unit {
 			b := 0
 			if strings.Contains(name, "two-entries") {
 				b = 2 // which of the two executions registers, waits and notices first is the point here
+				if strings.Contains(name, "cycle-3") && tier != "thorough" {
+					b = 1
+				}
 			}
 			us = append(us, &Unit{Name: sc.Name, Sc: sc, Bound: b, Prune: false, Weight: 1, Check: func(x *vlab.Exec) []vlab.Violation {
 				out := generic("C07", x)
